@@ -124,7 +124,12 @@ def run_case(case: Dict[str, Any], ctx) -> None:
                 arg = list(arg) + [{"params": [plain]}]
             okw["allow_non_unit_scaling_params"] = True
             ctx.count("form:allow_non_unit_scaling_params")
-        opt = cls(arg, lr=eta, eps=0.0, weight_decay=0.0, **okw)
+        lr_arg = eta
+        if case["seed"] % 5 == 1:
+            lr_arg = torch.tensor(eta, dtype=torch.float64)  # documented as Union[float, Tensor]
+            okw["foreach"] = False
+            ctx.count("form:tensor-lr")
+        opt = cls(arg, lr=lr_arg, eps=0.0, weight_decay=0.0, **okw)
         y0 = layer(x)
         g = torch.randn(y0.shape, generator=gen, dtype=torch.float64)
         g = torch.where(g.abs() < 1e-3, torch.full_like(g, 0.5), g)
